@@ -235,6 +235,29 @@ pub fn cases(args: &[String]) {
                 break_cycles(&nodes);
                 line
             }
+            "alias" => {
+                // two DIFFERENT objects that start at the same address (a struct and its first field): identity is
+                // the object, not the address; each is new once and then referenced by its own id
+                #[repr(C)]
+                struct Header {
+                    tag: u32,
+                }
+                #[repr(C)]
+                struct Frame {
+                    header: Header,
+                    body: u32,
+                }
+                let frame = Frame { header: Header { tag: 77 }, body: 5 };
+                let _ = (frame.header.tag, frame.body);
+                let mut ctx = SerializationContext::new(Vec::<u8>::new());
+                let mut news = Vec::new();
+                news.push(ctx.store_ref_or_object(&frame).map_err(|e| format!("{e}")));
+                news.push(ctx.store_ref_or_object(&frame.header).map_err(|e| format!("{e}")));
+                news.push(ctx.store_ref_or_object(&frame).map_err(|e| format!("{e}")));
+                news.push(ctx.store_ref_or_object(&frame.header).map_err(|e| format!("{e}")));
+                let flags: Vec<String> = news.iter().map(|r| match r { Ok(true) => "new".into(), Ok(false) => "ref".into(), Err(e) => e.clone() }).collect();
+                format!("ok {} {}", hex(&ctx.into_output()), flags.join(","))
+            }
             "gdec" => decode(&unhex(&t[1])),
             _ => panic!("bad graph line"),
         }));
